@@ -311,6 +311,10 @@ const EXACT_DEPTH_PATHS: &[&str] = &[
     "call:rest-and-default-params", "arrow:block-body", "method:object-literal", "method:function-property", "method:computed-member", "method:class",
     "method:class-static", "method:prototype-assigned", "method:inherited", "construct:function", "construct:class", "construct:class-expression",
     "bound:plain", "bound:with-arguments", "bound:twice", "bound:method", "async:function", "tagged-template:function",
+    "primitive-method:string-dot", "primitive-method:string-bracket", "primitive-method:string-optional", "primitive-method:string-variable",
+    "primitive-method:number-dot", "primitive-method:number-bracket", "primitive-method:number-optional", "primitive-method:number-variable",
+    "primitive-method:boolean-dot", "primitive-method:boolean-bracket", "primitive-method:boolean-optional",
+    "primitive-method:object-prototype-string-receiver", "primitive-method:object-prototype-number-receiver",
 ];
 
 const PRELUDE: &str = "let K = 0, D = 0;\nfunction hp() { K++; return K; }\n";
@@ -361,6 +365,10 @@ pub struct PathCaseSpec<'a> {
     pub body: Body,
     pub module: bool,
     pub filler: Filler,
+}
+
+fn path_named(name: &str) -> &'static PathDef {
+    PATHS.iter().find(|p| p.name == name).unwrap_or(&PATHS[0])
 }
 
 fn shape_of(i: usize) -> (&'static str, &'static str) {
@@ -1108,7 +1116,7 @@ impl Property for C06Prop {
     }
     fn rule(&self) -> String {
         format!(
-            "Cases: (1) PATH x BODY programs over {} paths in 16 families x 6 bodies (infinite loop in the callee over {} loop forms; endless loop re-entering the path per iteration; unbounded self recursion; mutual recursion across two tape-chosen paths; finite recursion of depth 1..9000 returning or throwing at the bottom; {} recursion shapes) x {} start contexts x script/module x progen filler (before the start, in the callee prologue, in the loop body); the full grid path x body and context x body is enumerated on every run, the rest is tape-generated. (2) {} built-ins with a length/count/index/digits argument x {} boundary sizes (all pairs enumerated) + random powers of two, integers in [2^31, 2^53], negatives, fractions, decimal exponents. (3) {} deep-data families (depth/width 2000 and 10^5 enumerated, log-uniform depths generated) x the natives / host API calls that walk them. Oracle: scripted host with step budget {} (loops) / {} (recursion) and call_depth() budget {}; per-step H3 instruction delta <= {} (armed), H3 native re-entry depth <= {} (armed), expected end per body (step stop / depth stop / completion with call_depth() back at 0 and >= the script depth at the bottom), worker alive under an 8 MiB stack and RLIMIT_AS 4 GiB. Non-trivial: the marker logged inside the unbounded construct was seen and then >= 1000 VM instructions ran or call_depth() reached >= 100; size probes: the call was reached; deep probes: the graph (depth >= 1000) was built and the operation reached. Families with an open boundedness finding are excluded by construction under the boundedness oracle only (gate C06:reentry:<family>): their loop bodies become per-iteration re-entry, their unbounded recursions are judged for survival only (kind survive: must end in a RangeError / Err result or a host stop, never in process death). Distinct = distinct case text.",
+            "Cases: (1) PATH x BODY programs over {} paths in 17 families x 6 bodies (infinite loop in the callee over {} loop forms; endless loop re-entering the path per iteration; unbounded self recursion; mutual recursion across two tape-chosen paths; finite recursion of depth 1..9000 returning or throwing at the bottom; {} recursion shapes) x {} start contexts x script/module x progen filler (before the start, in the callee prologue, in the loop body); the full grid path x body and context x body is enumerated on every run, the rest is tape-generated. (2) {} built-ins with a length/count/index/digits argument x {} boundary sizes (all pairs enumerated) + random powers of two, integers in [2^31, 2^53], negatives, fractions, decimal exponents. (3) {} deep-data families (depth/width 2000 and 10^5 enumerated, log-uniform depths generated) x the natives / host API calls that walk them. Oracle: scripted host with step budget {} (loops) / {} (recursion) and call_depth() budget {}; per-step H3 instruction delta <= {} (armed), H3 native re-entry depth <= {} (armed), expected end per body (step stop / depth stop / completion with call_depth() back at 0 and >= the script depth at the bottom), worker alive under an 8 MiB stack and RLIMIT_AS 4 GiB. Non-trivial: the marker logged inside the unbounded construct was seen and then >= 1000 VM instructions ran or call_depth() reached >= 100; size probes: the call was reached; deep probes: the graph (depth >= 1000) was built and the operation reached. Families with an open boundedness finding are excluded by construction under the boundedness oracle only (gate C06:reentry:<family>): their loop bodies become per-iteration re-entry, their unbounded recursions are judged for survival only (kind survive: must end in a RangeError / Err result or a host stop, never in process death). Distinct = distinct case text.",
             PATHS.len(), LOOPS.len(), REC_SHAPES.len(), CONTEXTS.len(), SIZE_PROBES.len(), SIZES.len(), DEEPS.len(), STEP_BUDGET_LOOP, STEP_BUDGET_RECURSION, DEPTH_BUDGET, STEP_INSTR_BOUND, REENTRY_BOUND
         )
     }
@@ -1146,8 +1154,8 @@ impl Property for C06Prop {
         }
         // context x body grid (plain call, method, constructor)
         for (j, cx) in CONTEXTS.iter().enumerate() {
-            for (k, pi) in [0usize, 18, 30].iter().enumerate() {
-                let a = &PATHS[*pi % PATHS.len()];
+            for (k, name) in ["call:declaration", "method:object-literal", "construct:class", "primitive-method:string-dot"].iter().enumerate() {
+                let a = path_named(name);
                 for b in [Body::Loop { form: j + k }, Body::Repeat { form: j + k }, Body::SelfRec { shape: j + k }, Body::Finite { n: 400, shape: j, throws: k == 1 }] {
                     all.push(build_path_case(PathCaseSpec { a, b: None, ctx: cx, body: b, module: (j + k) % 3 == 0, filler: Filler::default() }, &ctx.gates));
                 }
@@ -1155,8 +1163,8 @@ impl Property for C06Prop {
         }
         // loop forms x (plain call, arrow, method, constructor, bound)
         for (f, _) in LOOPS.iter().enumerate() {
-            for pi in [0usize, 15, 18, 30, 38] {
-                let a = &PATHS[pi % PATHS.len()];
+            for name in ["call:declaration", "arrow:block-body", "method:object-literal", "construct:class", "bound:plain", "primitive-method:number-dot"] {
+                let a = path_named(name);
                 all.push(build_path_case(PathCaseSpec { a, b: None, ctx: top, body: Body::Loop { form: f }, module: false, filler: Filler::default() }, &ctx.gates));
             }
         }
